@@ -8,6 +8,10 @@ from .properties import (
 )
 from .utils import PREFIX_21_REGEX
 
+# STIX 2.1 section 3.1: property names are lowercase a-z, 0-9 and underscore,
+# 3 to 250 characters long.
+PROPERTY_NAME_21_REGEX = re.compile(r'^[a-z0-9_]{3,250}$')
+
 
 def _validate_ref_props(props_map, is_observable20=False):
     """
@@ -64,6 +68,12 @@ def _validate_props(props_map, version, **kwargs):
         for prop_name, prop_value in props_map.items():
             if not re.match(PREFIX_21_REGEX, prop_name):
                 raise ValueError("Property name '%s' must begin with an alpha character." % prop_name)
+            if prop_name != 'id' and not re.match(PROPERTY_NAME_21_REGEX, prop_name):
+                raise ValueError(
+                    "Property name '%s' must only contain the characters a-z "
+                    "(lowercase ASCII), 0-9, and underscore (_), and must be "
+                    "between 3 and 250 characters long." % prop_name,
+                )
     # Confirm conformance of reference properties
     _validate_ref_props(props_map, **kwargs)
 
